@@ -18,9 +18,9 @@ from ..modelcheck import add_models
 def plans(tier):
     if tier == "quick":
         return [("d1-1d", 1, 24), ("d1-2d", 1, 48), ("d1-random", 1, 4), ("d2-random", 1, 40), ("d1-rspec", 1, 6), ("d2-lean2", 1, 96),
-                ("d2-lean3", 1, 128)]
+                ("d2-lean3", 1, 128), ("d1-join", 1, 2), ("d2-einsum", 1, 1), ("d1-mapplain", 2, 1)]
     return [("d1-1d", 2, 3), ("d1-2d", 2, 6), ("d1-random", 1, 1), ("d2-random", 1, 4), ("d1-rspec", 2, 1), ("d2-lean1", 1, 4),
-            ("d2-lean2", 1, 12), ("d2-lean3", 1, 16)]
+            ("d2-lean2", 1, 12), ("d2-lean3", 1, 16), ("d1-join", 2, 1), ("d2-einsum", 2, 1), ("d1-mapplain", 4, 1)]
 
 
 def _local(item):
@@ -36,9 +36,8 @@ def run(chk):
         items = []
         rng = random.Random(chk.seed)
         for name, maxvar, stride in progcheck.dev_filter(plans(chk.tier)):
-            kw = dict(progcheck.CORPORA[name])
-            keep = kw.pop("keep", None)
-            kw.pop("observe_all", None)
+            kw, flags = progcheck.corpus_kwargs(name)
+            keep = flags["keep"]
             behs, res = replay.generate_programs(rundir=rd, timeout=3000, **kw)
             chk.add_tlc(res, f"gen:{name}")
             if keep is not None:
